@@ -75,7 +75,9 @@ def cases(tier):
 
 
 def run(tier, seed, agg):
-    acheck.run_cases(cases(tier), CLAUSES, agg, judge, seed)
+    cs = cases(tier)
+    cs += [dict(c, stateless=5 if tier == 'quick' else 7) for c in cs if not any(x.get('fixed') for x in c['comps']) and c['end'] in (3.5, 6)]
+    acheck.run_cases(cs, CLAUSES, agg, judge, seed)
     return dict(
         level="model_checking",
         rule="explicit-state BFS over the real Composition.run for 7 (quick) / 10 (thorough) end times per family (step lengths are environment choices) plus fixed cyclic step lists crossed with the full half-hour "
